@@ -1,9 +1,13 @@
 import Driver.Proto
+import Driver.C12
+import Driver.C12Mon
 import Driver.C16
 import Driver.C16Lin
 import Driver.C16Mon
 
 def suites : List (String × Driver.Suite) :=
+  Driver.C12.suites ++
+  Driver.C12Mon.suites ++
   Driver.C16.suites ++
   Driver.C16Lin.suites ++
   Driver.C16Mon.suites
